@@ -515,7 +515,7 @@ class Scen(CompScenario):
                     self.compare(n, it, nd["o"], tuple(got[x] for x in nd["o"]), "returned")
                     r = nd["re"]
                     if nd["via"] == "adapt":
-                        self.buf[n].append(got)
+                        self.buf[n].append(dict(got, _epoch=self.epoch))
                         self.hit("exit_to_harness_buffer")
                     else:  # the bridge transaction wrote f(x) into the re-entry node in this very cycle
                         v = {y: py_op(op, [got[sf]], k, y) for y, sf, op, k in nodes[r]["f"]}
@@ -526,12 +526,15 @@ class Scen(CompScenario):
                 en, done = stim.get(f"n{n}.en", 0), obs[f"n{n}.done"]
                 buf = self.buf[nd["exit"]]
                 self.premise(not en or blen0[nd["exit"]] > 0, "re-entry requested although the external module holds no item")
-                if buf and not en:
+                if blen0[nd["exit"]] and not en:
                     quiet = False
                 self.expect(not done or en, "ran-when-not-requested", f"node {n} (re-entry) done without request", node=n)
                 if done:
                     v = {y: stim.get(f"n{n}.i.{y}", 0) for y, _, _, _ in nd["f"]}
-                    buf.pop(0)
+                    head = buf.pop(0)
+                    self.expect(head["_epoch"] == self.epoch, "cleared-item-survived",
+                                f"the external module between node {nd['exit']} and node {n} re-entered an item it received "
+                                f"before the last clear ({head}): the external clear hook did not reach it", node=n, ntype="re")
                     if nd["nodep"]:
                         self.vals[n].setdefault(self.epoch, []).append(v)
                         self.hit("reentry_nodep_adapters")
@@ -749,7 +752,7 @@ class Prop(PropBase):
         return {"ntype": info.get("ntype"), "shape": "-".join(n["t"] + ("*" if n.get("nodep") else "") for n in cfg["nodes"])}
 
     def violation_class(self, feats):
-        return {"kind": feats["kind"], "ntype": feats.get("ntype")}
+        return {"kind": feats["kind"]}
 
     def cfg_signature(self, cfg):
         return [cfg["src"], cfg["nodes"], cfg["sink"], cfg["src_fifo"], cfg["src_stall"], cfg["sink_stall"], cfg["xclr"],
